@@ -20,6 +20,7 @@ def main(argv=None):
     s.add_argument("--out", required=True)
     s.add_argument("--budget", type=float, default=30)
     s.add_argument("--index", type=int, default=None)
+    s.add_argument("--skip", default="")
     sub.add_parser("selftest")
     r = sub.add_parser("replay")
     r.add_argument("path")
@@ -31,7 +32,8 @@ def main(argv=None):
     if a.cmd == "shard":
         from vf.core.shard import run_shard
 
-        run_shard(a.pid.upper(), a.tier, a.seed, a.shard, a.nshards, a.out, a.budget, a.index)
+        run_shard(a.pid.upper(), a.tier, a.seed, a.shard, a.nshards, a.out, a.budget, a.index,
+                  skip=frozenset(int(x) for x in a.skip.split(",") if x))
         return 0
     if a.cmd == "selftest":
         from vf.core.selftest import selftest
